@@ -325,6 +325,8 @@ PROPS = {
              "bound": "fully consistent template module, and each of its 41 reference sites corrupted alone (42 cases)", "timeout": 600, "extra_modules": ["tokenizer"], "validate": 42},
             {"engine": "E2", "module": "lib", "harness": "h_check_this_refs", "functions": ["checker::check_axis_descr_refs", "checker::is_valid_structure_component", "checker::check_typedef_characteristic"],
              "bound": "TYPEDEF_CHARACTERISTIC with AXIS_PTS_REF THIS.ax used in 1 or 2 TYPEDEF_STRUCTUREs, each with or without the component (8 cases)", "timeout": 300, "extra_modules": ["tokenizer"]},
+            {"engine": "E2", "module": "lib", "harness": "h_check_object_namespace", "functions": ["A2lFile::check", "checker::check_function", "checker::check_group", "checker::check_transformer", "checker::check_reference_list", "module::Module::objects"],
+             "bound": "9 object-reference sites (FUNCTION IN/OUT/LOC_MEASUREMENT, DEF/REF_CHARACTERISTIC, GROUP REF_CHARACTERISTIC / REF_MEASUREMENT, TRANSFORMER in / out objects) x 5 object kinds x target defined / missing (90 modules)", "timeout": 300, "extra_modules": ["tokenizer"], "must_cover": ["check_object_namespace_end"]},
             {"engine": "E2", "module": "lib", "harness": "h_check_namespaces", "functions": ["A2lFile::check", "checker::check_compu_method", "checker::check_instance", "checker::check_typedef_structure", "module::Module::compu_tabs", "module::Module::typedefs"],
              "bound": "{COMPU_TAB_REF, STATUS_STRING_REF} x 3 table kinds and {INSTANCE type, STRUCTURE_COMPONENT type} x 5 typedef kinds, target defined / missing (32 modules)", "timeout": 300, "extra_modules": ["tokenizer"], "must_cover": ["check_namespaces_end"]},
             {"engine": "E2", "module": "lib", "harness": "h_check_conventions", "functions": ["checker::check"],
@@ -359,6 +361,8 @@ PROPS = {
              "bound": "5 scenarios on a template module with 30+ populated reference sites: all names conflict / identical copy / disjoint names / into empty / from empty", "timeout": 600, "extra_modules": ["tokenizer"], "validate": 5},
             {"engine": "E2", "module": "lib", "harness": "h_merge_named_union", "msg_prefix": "C09", "functions": ["merge::merge_function", "merge::merge_group", "merge::merge_user_rights", "merge::merge_variant_coding", "merge::rename_objects"],
              "bound": "FUNCTION / GROUP / USER_RIGHTS / VARIANT_CODING from B referring to objects that are renamed by the merge (2 scenarios)", "timeout": 600, "extra_modules": ["tokenizer"], "validate": 2},
+            {"engine": "E2", "module": "lib", "harness": "h_merge_same_name_across_namespaces", "functions": ["merge::merge_modules", "merge::rename_*", "merge::merge_function", "merge::merge_group", "merge::merge_frame", "merge::merge_transformer", "checker::check"],
+             "bound": "one name used in all ten namespaces with every kind of reference populated; exactly one of 8 renaming namespaces conflicts between A and B: no dangling reference afterwards, references into the other namespaces keep the plain name", "timeout": 400, "extra_modules": ["tokenizer"], "max_steps": 40000000, "must_cover": ["merge_same_name_end"]},
             {"engine": "E2", "module": "lib", "harness": "h_merge_twin_refs", "functions": ["merge::merge_objects", "merge::calculate_item_actions", "merge::rename_objects", "merge::rename_typedef_refs"],
              "bound": "B's element textually identical to A's but referring to a MEASUREMENT that the merge renames: TYPEDEF_AXIS twin reached through an INSTANCE (object twin AXIS_PTS: known finding D22)", "timeout": 300, "extra_modules": ["tokenizer"]},
             {"engine": "E2", "module": "lib", "harness": "h_merge_twin_refs_known_d22", "known": "D22", "functions": ["merge::merge_objects"],
